@@ -329,7 +329,7 @@ PROPS["C02"] = dict(
            "outcome of wait()/recv() is classified as the property says (dead worker => TerminatedWorkerError, a BrokenProcessPool, with the exit codes); "
            "terminate_broken flags first, fails every pending future with that very error, fabricates no result, kills and reaps every worker tree and joins the "
            "internals; run() leaves its loop on `broken` only through terminate_broken; submit re-raises the stored error before touching anything; whoever registers workers from outside the manager thread wakes it afterwards, so "
-           "that their sentinels enter the wait set; a pending future already cancelled by its owner does not stop terminate_broken.",
+           "that their sentinels enter the wait set; a pending future already cancelled by its owner does not stop terminate_broken. No loop runs over the live table of pending work items (structural scan); a spawn failing half-way leaves no worker without a manager thread; Popen._launch holds no copy of the child's read end while it writes the payload.",
     not_covered="that a death at every instant of a worker's life surfaces as 'sentinel ready, no result, no wake-up' (A-kernel, schedules); interleavings with "
                 "the feeder and user threads (A-atomic); futures already resolved are untouched only in the sense that no set_result/other set_exception occurs.",
     assumptions=["A-atomic", "A-kernel", "A-alias", "A-pids", "A-posix"],
@@ -340,7 +340,7 @@ PROPS["C04"] = dict(
     proved="for every exception class a task can raise (any BaseException subclass, user classes included) the worker sends exactly one _ResultItem carrying the "
            "task's own id and the wrapped exception and keeps looping; _sendback_result falls back to the pickling error; the feeder's error path fails only the "
            "own future (RuntimeError iff struct.error else PicklingError, remote traceback as cause), forgets the id, frees the slot, wakes the manager and touches no "
-           "flag; process_result_item resolves only the own future and never breaks the pool; the exception round-trips through __reduce__/_rebuild_exc.",
+           "flag; process_result_item resolves only the own future and never breaks the pool; the exception round-trips through __reduce__/_rebuild_exc. Queue._feed never ends silently because pickling raised (only on a broken pipe of the send, at the sentinel, or when the interpreter exits).",
     not_covered="interleavings of the feeder thread with dispatch/completion (A-atomic); what pickle does with the reducers (T-stdlib).",
     assumptions=["A-atomic", "A-user", "A-async", "A-psutil", "A-alias", "A-pids"],
     abstractions=EXEC_ABS,
@@ -351,7 +351,7 @@ PROPS["C05"] = dict(
            "flag_executor_shutting_down touches no future and no worker; is_shutting_down is exactly the stated formula on the values read; shutdown_workers posts "
            "at most one sentinel per registered worker (all of them unless no child is alive), releases every exit lock and never calls a blocking put; "
            "join_executor_internals closes call queue, feeder, result queue and wake-up pipe in that order and joins every worker; shutdown flags -> wakes (under the "
-           "lock) -> joins when asked; submit after shutdown raises ShutdownExecutorError with nothing touched.",
+           "lock) -> joins when asked; submit after shutdown raises ShutdownExecutorError with nothing touched. shutdown() raises nothing but a wake-up pipe error also when another thread completes a shutdown of the same executor while it waits for a lock (rely/guarantee at the lock waits).",
     not_covered="that results in flight are delivered before the manager leaves; sentinel/time-out races; termination of the sentinel loop; atexit ordering.",
     assumptions=["A-atomic", "A-alias", "A-pids", "A-posix"],
     abstractions=EXEC_ABS,
@@ -359,9 +359,9 @@ PROPS["C05"] = dict(
 )
 PROPS["C06"] = dict(
     proved="with kill_workers read true every pending future gets a ShutdownExecutorError, the pending map is emptied, no result is fabricated, every registered "
-           "worker tree is killed and reaped; shutdown() forwards the caller's kill_workers flag before waking the manager.",
-    not_covered="wall-clock bound; results already in the pipe; grandchildren spawned between listing and killing; the kill-tree helpers' own bodies are "
-                "assumed contracts until utils.py is under contract.",
+           "worker tree is killed and reaped; shutdown() forwards the caller's kill_workers flag before waking the manager. A request to kill is recorded whenever it is made and never withdrawn by a later call (flag_as_shutting_down); the kill-tree helpers are verified bodies.",
+    not_covered="wall-clock bound; results already in the pipe; grandchildren spawned between listing and killing; a worker already popped from the table and being joined by "
+                "the manager thread (mid-exit) when the forced shutdown arrives.",
     assumptions=["A-atomic", "A-alias", "A-posix"],
     abstractions=EXEC_ABS,
 )
@@ -607,7 +607,7 @@ PROPS["C18"] = dict(
            "when such a key is present; _adjust_process_count (the single worker spawn site, structural scan) ships initializer, initargs and env; _prepare_initializer rejects a non-"
            "callable initializer before anything else and otherwise hands the worker the user's initializer with the user's initargs, first in the chain when a "
            "profiler initializer is added (the chaining helper is executed at its call site, exact unrolling); the worker runs the initializer before its first get "
-           "and processes nothing when it raises.",
+           "and processes nothing when it raises. The start-up payload is written only after the parent closed its copies of the child's pipe ends (a child dying at start-up gives EPIPE, left to the sentinel to report).",
     not_covered="what the kernel does with close_fds/pass_fds; the interpreter's own start-up; descriptors opened by the child; _ChainedInitializer.__call__ "
                 "(calls each chained initializer with its own arguments: a zip over a heap list, not under contract) and the viztracer introspection (third party).",
     assumptions=["A-posix", "A-fds", "A-user", "A-finalize", "A-tracker-stable", "A-spawn"],
@@ -619,7 +619,7 @@ PROPS["C20"] = dict(
            "descriptor they open on *every* exit path (normal and exceptional: failing fork_exec, failing os.pipe, failing spawn); only the documented ones survive "
            "(the sentinel, owned by a finalizer; the tracker's write end, recorded in the tracker object); _ThreadWakeup.close closes both ends once, SimpleQueue.close "
            "both ends; join_executor_internals closes the call queue, its feeder, the result queue and the wake-up pipe and joins every registered worker; "
-           "terminate_broken reaches it; a cleanly exiting worker is joined when its pid is processed; shutdown() drops the five fd-holding references.",
+           "terminate_broken reaches it; a cleanly exiting worker is joined when its pid is processed; shutdown() drops the five fd-holding references. A failed or half-failed spawn in _ensure_executor_running leaves no worker without a manager thread (the Thread.start failure case is known finding F23b).",
     not_covered="the cumulative statement itself (counts after N lifecycles), threads and zombies as observed by the OS, named semaphores (C13).",
     assumptions=["A-fds", "A-finalize", "A-atomic", "A-tracker-stable", "A-posix"],
     abstractions=EXEC_ABS,
@@ -630,7 +630,7 @@ PROPS["C12"] = dict(
            "in the child's keep list; prepare() installs exactly the shipped pid/descriptor in the child's tracker object (induction over depth: every process of the tree "
            "reports to the root's tracker); ensure_running leaves a living tracker alone and relaunches a dead or missing one (old descriptor closed, child reaped, one "
            "warning), with SIGINT/SIGTERM blocked before the spawn and unblocked after it on every exit, the read end closed in the parent on every exit and the write "
-           "end closed when the spawn failed; the tracker's main() ignores SIGINT and SIGTERM before its first read and leaves its loop only at end of file.",
+           "end closed when the spawn failed; the tracker's main() ignores SIGINT and SIGTERM before its first read and leaves its loop only at end of file. A stderr without a usable descriptor never prevents the (re)launch of the tracker.",
     not_covered="that end of file happens only after the *last* member is gone, deaths by SIGKILL, signals during start-up before main() runs (A-kernel); "
                 "the loky_init_main path beyond sharing _launch.",
     assumptions=["A-kernel", "A-warn", "A-fds", "A-tracker-stable", "A-posix"],
@@ -645,7 +645,7 @@ PROPS["C13"] = dict(
            "right after and installs the finalizer (in that order; a failed creation registers nothing); generated names lie in this process's /loky-<pid>- namespace "
            "(both name generators); the finalizer unlinks the name once and then always unregisters it, also when it was already unlinked or the unlink fails; "
            "unpickled copies (__setstate__) attach by name and neither create, register nor install a finalizer; at end of life the tracker destroys every "
-           "still-registered semlock name exactly once (sweep, shared with C11) after leaving its loop only at end of file.",
+           "still-registered semlock name exactly once (sweep, shared with C11) after leaving its loop only at end of file. A SemLock constructor that raises leaves no semaphore behind (unlinks the one whose registration failed); REGISTER of any name, colons included, enters the registry the sweep works from.",
     not_covered="that garbage collection / interpreter exit run the finalizer (A-finalize); that end of file reaches the tracker when the last process of the tree "
                 "dies, including SIGKILL (A-kernel); the namespace listing itself; 'no leaked warning for released objects' follows from UNREGISTER forgetting the "
                 "name (C11 step) but the interleaving of that message with the tracker's exit is a schedule.",
@@ -691,7 +691,7 @@ PROPS["C10"] = dict(
            "worker found alive above the new size (never more), then polls, then tops up through _adjust_process_count (which keeps every registered worker and "
            "starts the missing ones, C08), wakes the manager thread so that it watches the new workers, and polls the *current* worker table until every registered worker is "
            "alive or the pool is broken (each of the three polling loops exits under a declared eventual guarantee of the other threads); submit and _resize run under the same submit/resize lock (the base "
-           "submit is only reached holding it); the lock is released on every exit.",
+           "submit is only reached holding it); the lock is released on every exit. After the wait for departures nothing is spawned into a pool found broken; surplus sentinels are posted with a blocking put.",
     not_covered="termination of the polling loops beyond 'each loop's test is false once the environment's declared eventual guarantee holds' (A-progress; "
                 "interference is modelled as arbitrary change of the shared tables at each sleep, A-yield); that the kept workers are the previous processes as observed by pid; results of tasks submitted "
                 "before the resize (C03 routing is per task and unaffected by the size).",
